@@ -118,6 +118,16 @@ def run(ctx):
     if missing and rc == 0:
         ctx.broken.append("functions without a Go reference in the harness: " + ",".join(missing))
 
+    # stability is only observable beyond the Go library's insertion-sort range (n > 12) when the comparison reports ties:
+    # every entry point documented as stable must have been driven with such arrays
+    for full in ("sort.SliceStable", "sort.Stable"):
+        if any(f["pkg"] + "." + f["name"] == full for f in fns):
+            n_tied = c.get("long_tied:" + full, 0)
+            ctx.obligations.append(("stability of %s checked on arrays of more than 12 elements with ties" % full,
+                                    n_tied >= 20, "%d such arrays" % n_tied))
+            if n_tied < 20 and rc == 0 and not os.environ.get("VERIF_CASES"):
+                ctx.broken.append("%s was sorted on only %d long arrays with ties" % (full, n_tied))
+
     gst = (ctx.read_jsonl("c11g_stats.json") or [{}])[0]
     gc = gst.get("counters", {})
     ctx.coverage.update({
@@ -127,7 +137,8 @@ def run(ctx):
                 "zero/empty/-1/nil answer or either side fails; glue lines are non-trivial when the value is outside the parameter "
                 "type's domain (a coercion happens), an array, or a result list. Arguments: atoms of a hostile alphabet (invalid UTF-8, "
                 "NUL, Unicode spaces/case-specials, numeric edge texts, path shapes) combined and mutated; second strings derived from "
-                "the first; boundary ints/runes; NaN payloads, ±0, ±Inf, subnormals, random bit patterns; empty to 500-element arrays",
+                "the first; boundary ints/runes; NaN payloads, ±0, ±Inf, subnormals, random bit patterns; empty to 500-element arrays; sort.SliceStable/Slice and sort.Stable/Sort on 13..200-element arrays whose "
+                "comparison reports many ties (key = v/1000, v%7, v%2, descending, constant, b%4, len(s); -0/+0 floats) count as non-trivial",
         "functions_in_table": len(fns),
         "functions_native": sum(1 for f in fns if f["native"]),
         "functions_compared": len(exercised),
